@@ -56,6 +56,12 @@ def run_op(prog, S, members, listeners, world, fn, mkargs, statuses=None):
     return I, w, body, outs
 
 
+def lock_invariant(o):
+    """whenever the guard of a group's entry in the forward map is released, the scope index lists the group iff it has members"""
+    rel = [e for e in o.st.trace if e[0] == 'RELEASE']
+    return all(e[1] is not None and e[2] == e[3] for e in rel), len(rel)
+
+
 def notifications(o):
     res = []
     for e in o.st.trace:
@@ -102,6 +108,7 @@ def check_mutations(ctx, prog, S):
                             continue
                         s = w.read(o.st)
                         claims = dict(pw.invariant(s))
+                        claims['index_agrees_with_membership_whenever_the_group_entry_is_released'], n_rel = lock_invariant(o)
                         before = set(members[(S['D'], g)])
                         after = set(s['members'].get((S['D'], g), []))
                         other = 'g2' if g == 'g1' else 'g1'
@@ -152,6 +159,9 @@ def check_mutations(ctx, prog, S):
                         continue
                     s = w.read(o.st)
                     claims = dict(pw.invariant(s))
+                    claims['index_agrees_with_membership_whenever_the_group_entry_is_released'], n_rel = lock_invariant(o)
+                    if n_rel:
+                        seen.add('entry_released')
                     notes = notifications(o)
                     if op == 'leave_all':
                         claims['exiting_actor_is_in_no_group'] = all(x not in m for m in s['members'].values())
@@ -212,7 +222,7 @@ def check_mutations(ctx, prog, S):
                         claims['other_monitors_stay'] = [x for x in before_pool.get(kkey, []) if x != a] == [x for x in pool.get(kkey, []) if x != a]
                         seen.add('demonitor')
                     lp.record(ctx, name, o.st, claims, 'C11.' + op, on_cex=cex)
-    for w_ in ('join_effective', 'join_notified', 'leave_effective', 'exit_leaves_groups', 'exit_drops_monitors', 'monitor', 'demonitor'):
+    for w_ in ('join_effective', 'join_notified', 'leave_effective', 'exit_leaves_groups', 'exit_drops_monitors', 'monitor', 'demonitor', 'entry_released'):
         ctx.note_witness('C11.' + w_, w_ in seen)
 
 
